@@ -40,6 +40,7 @@ type hCol struct {
 	Kind hKind
 	Type string
 	PK   bool
+	Ord  int    // 1-based position in the PRIMARY KEY clause (0 for non-key columns)
 	Def  string // DEFAULT literal ("" = none)
 	UID  int    // identity of the column: assigned by CREATE TABLE / ADD COLUMN, kept by RENAME / MODIFY
 }
@@ -123,7 +124,7 @@ func (t *hTable) schemaString() string {
 	for _, c := range t.Cols {
 		s := c.Name + " " + c.Type
 		if c.PK {
-			s += " PK"
+			s += fmt.Sprintf(" PK%d", c.Ord)
 		}
 		p = append(p, s)
 	}
@@ -315,7 +316,16 @@ type hConfig struct {
 	PKByName     bool // the primary key of a table is a function of its name (a re-created table has the same key columns) and key columns are never renamed
 }
 
+// hPKSpec is the key shape of a table: kind of k2 (-1 = none), presence of k3, and the order
+// of the key columns in the PRIMARY KEY clause.
+type hPKSpec struct {
+	k2    int
+	k3    bool
+	order []int
+}
+
 type hHist struct {
+	pkSpec  map[string]hPKSpec
 	rt      *rapid.T
 	cfg     hConfig
 	srv     *vsql.Server
@@ -410,23 +420,70 @@ func (h *hHist) createTable() {
 	name := rapid.SampledFrom(h.freeTableNames()).Draw(rt, h.label("create.name"))
 	t := &hTable{Rows: map[string][]string{}, Idx: map[string]string{}}
 	t.Cols = append(t.Cols, hCol{Name: "pk", Kind: hkInt, Type: "INT", PK: true})
-	pk2 := 0
-	if h.cfg.PKByName {
-		for i, n := range h.cfg.TablePool {
-			if n == name {
-				pk2 = []int{3, 0, 1}[i%3]
+	// key shape: 1..3 key columns (pk INT [, k2 INT|VARCHAR [, k3 INT]]) and the order in which
+	// the PRIMARY KEY clause lists them (any permutation; the declaration order is pk,k2,k3).
+	// With PKByName the shape is drawn once per table name and case, so that a re-created table
+	// has the same key.
+	spec, have := h.pkSpec[name]
+	if !have || !h.cfg.PKByName {
+		pk2 := 0
+		if h.cfg.PKByName {
+			for i, n := range h.cfg.TablePool {
+				if n == name {
+					pk2 = []int{3, 0, 1}[i%3]
+				}
+			}
+		} else {
+			pk2 = rapid.IntRange(0, 3).Draw(rt, h.label("create.pk2"))
+		}
+		spec = hPKSpec{k2: -1}
+		switch pk2 {
+		case 0:
+			spec.k2 = int(hkInt)
+		case 1:
+			if h.cfg.StrPK {
+				spec.k2 = int(hkStr)
 			}
 		}
-	} else {
-		pk2 = rapid.IntRange(0, 3).Draw(rt, h.label("create.pk2"))
-	}
-	switch pk2 {
-	case 0:
-		t.Cols = append(t.Cols, hCol{Name: "k2", Kind: hkInt, Type: "INT", PK: true})
-	case 1:
-		if h.cfg.StrPK {
-			t.Cols = append(t.Cols, hCol{Name: "k2", Kind: hkStr, Type: "VARCHAR(12)", PK: true})
+		if spec.k2 >= 0 && rapid.IntRange(0, 2).Draw(rt, h.label("create.k3")) == 0 {
+			spec.k3 = true
 		}
+		n := 1
+		if spec.k2 >= 0 {
+			n++
+		}
+		if spec.k3 {
+			n++
+		}
+		spec.order = make([]int, n)
+		for i := range spec.order {
+			spec.order[i] = i
+		}
+		if n > 1 && rapid.IntRange(0, 2).Draw(rt, h.label("create.pkperm")) != 0 {
+			spec.order = rapid.Permutation(spec.order).Draw(rt, h.label("create.pkorder"))
+		}
+		if h.pkSpec == nil {
+			h.pkSpec = map[string]hPKSpec{}
+		}
+		h.pkSpec[name] = spec
+	}
+	if spec.k2 == int(hkInt) {
+		t.Cols = append(t.Cols, hCol{Name: "k2", Kind: hkInt, Type: "INT", PK: true})
+	} else if spec.k2 == int(hkStr) {
+		t.Cols = append(t.Cols, hCol{Name: "k2", Kind: hkStr, Type: "VARCHAR(12)", PK: true})
+	}
+	if spec.k3 {
+		t.Cols = append(t.Cols, hCol{Name: "k3", Kind: hkInt, Type: "INT", PK: true})
+	}
+	permuted := false
+	for pos, ci := range spec.order { // spec.order[pos] = index (declaration order) of the pos-th key column
+		t.Cols[ci].Ord = pos + 1
+		if ci != pos {
+			permuted = true
+		}
+	}
+	if permuted {
+		h.Class["pk_order_differs_from_declaration"] = true
 	}
 	nv := rapid.IntRange(1, 3).Draw(rt, h.label("create.nval"))
 	for i := 0; i < nv; i++ {
@@ -446,9 +503,11 @@ func (h *hHist) createTable() {
 		d := "`" + c.Name + "` " + c.Type
 		if c.PK {
 			d += " NOT NULL"
-			pks = append(pks, "`"+c.Name+"`")
 		}
 		defs = append(defs, d)
+	}
+	for _, ci := range spec.order {
+		pks = append(pks, "`"+t.Cols[ci].Name+"`")
 	}
 	h.exec(fmt.Sprintf("CREATE TABLE `%s` (%s, PRIMARY KEY (%s))", name, strings.Join(defs, ", "), strings.Join(pks, ",")))
 	h.Work[name] = t
@@ -474,12 +533,21 @@ func (h *hHist) genPK(t *hTable, label string) ([]string, []string) {
 		}
 		return lits, wires
 	}
+	npk := 0
 	for _, c := range t.Cols {
 		if !c.PK {
 			continue
 		}
+		npk++
 		if c.Kind == hkInt {
-			v := strconv.Itoa(rapid.IntRange(0, 5).Draw(h.rt, h.label(label+"."+c.Name)))
+			// 1st key column 0..5, 2nd 10..15, 3rd 20..22: values of different key columns never coincide
+			lo, hi := 0, 5
+			if npk == 2 {
+				lo, hi = 10, 15
+			} else if npk >= 3 {
+				lo, hi = 20, 22
+			}
+			v := strconv.Itoa(rapid.IntRange(lo, hi).Draw(h.rt, h.label(label+"."+c.Name)))
 			lits, wires = append(lits, v), append(wires, v)
 		} else {
 			s := rapid.SampledFrom([]string{"", "a", "A", "a'", "\\", "b\"", "a b", "%"}).Draw(h.rt, h.label(label+"."+c.Name))
